@@ -42,6 +42,10 @@ func runC17(w *World, p map[string]int) {
 		runC17Race(w, p)
 		return
 	}
+	if param(p, "mode", 0) == 2 {
+		runC17Probe(w, p)
+		return
+	}
 	t := w.Plan
 	k := drawKnobs(w)
 	k.GapLimit = 20
@@ -357,8 +361,12 @@ func runC17Race(w *World, p map[string]int) {
 	}
 	rounds := 2 + t.Int(param(p, "rounds", 8))
 	for r := 0; r < rounds && len(w.Violations) == 0; r++ {
-		for i, n := 0, t.Int(3); i < n; i++ {
-			switch t.Weighted([]int{6, 2, 3}) {
+		// chain events the followers have not seen yet; what matters to the
+		// detector is which pairs of code paths run without the wallet's own
+		// synchronisation between them, so every round pairs one request
+		// (methods drawn uniformly) with fresh follower work of every kind
+		for i, n := 0, 1+t.Int(3); i < n; i++ {
+			switch t.Weighted([]int{5, 2, 5}) {
 			case 0:
 				w.MineOnTip(t, 70)
 			case 1:
@@ -367,23 +375,24 @@ func runC17Race(w *World, p map[string]int) {
 				w.AnnounceLoose(t)
 			}
 		}
-		// one client in flight at a time: a second one could block on a wallet
-		// mutex held by the first while that is parked at a gate, which the
-		// simulator cannot see (a mutex wait is not a durable block)
-		nc := 1
+		nc := 1 // see DESIGN 11.5: one client in flight at a time
 		var gs []*G
 		var names []string
 		np := len(w.S.Panics)
 		ns := len(w.S.Stalls)
 		for c := 0; c < nc; c++ {
 			f.mis = []int{0, 0, 0, 8}[t.Int(4)]
-			call := calls[t.Weighted(weights)]
+			call := calls[t.Int(len(calls))]
+			if t.Bool(40) {
+				call = calls[t.Weighted(weights)]
+			}
 			_, fn := call.make(f)
 			g := inst.Call(RoleClient, "api."+call.name, func() { fn() })
 			g.gateReads = t.Bool(50)
 			gs = append(gs, g)
 			names = append(names, call.name)
 			w.Stat("op.request")
+			w.Stat("request." + call.name)
 		}
 		w.Stat("probe.concurrent_clients")
 		alive := func() bool {
@@ -395,8 +404,29 @@ func runC17Race(w *World, p map[string]int) {
 			return false
 		}
 		for i := 0; i < stepBudget && alive(); i++ {
-			if !w.S.Step() {
+			en := w.S.Enabled()
+			if len(en) == 0 {
 				break
+			}
+			// while the request sits inside a database transaction or between
+			// two of its reads, the followers get most of the steps
+			var mine, others []Action
+			for _, a := range en {
+				if a.G == gs[0] {
+					mine = append(mine, a)
+				} else {
+					others = append(others, a)
+				}
+			}
+			inside := len(mine) > 0 && (strings.HasPrefix(gs[0].parked, "db.commit") || strings.HasPrefix(gs[0].parked, "db.read"))
+			switch {
+			case len(others) > 0 && (len(mine) == 0 || (inside && w.S.Tape.Bool(70))):
+				w.S.Do(others[w.S.Tape.Int(len(others))])
+				if inside {
+					w.Stat("probe.follower_step_inside_request")
+				}
+			default:
+				w.S.Do(en[w.S.Tape.Int(len(en))])
 			}
 		}
 		if len(w.S.Stalls) > ns {
@@ -422,4 +452,79 @@ func runC17Race(w *World, p map[string]int) {
 	}
 	w.Stat("check.c17_concurrent_run")
 	w.Sample = fmt.Sprintf("C17 race-mode rounds=%d height=%d race-detector=%v", rounds, w.Node.Tip().Height, raceBuild)
+}
+
+// runC17Probe (params mode=2) is a fixed scenario used to test the race mode
+// itself: an address request is parked before its commit while the handler
+// processes an unconfirmed transaction.
+//
+//go:norace
+func runC17Probe(w *World, p map[string]int) {
+	t := w.Plan
+	k := drawKnobs(w)
+	k.GapLimit = 20
+	k.NodeGates = false
+	w.SetKnobs(k)
+	inst := w.NewInstance("A")
+	if err := inst.Open(); err != nil {
+		w.Violate("C17.harness", "%v", err)
+		return
+	}
+	if err := setupWallets(w, inst, 2); err != nil {
+		w.Violate("C17.setup", "%v", err)
+		return
+	}
+	if err := inst.StartSolo(); err != nil {
+		w.Violate("C17.start", "%v", err)
+		return
+	}
+	for i := 0; i < 8; i++ {
+		w.MineOnTip(t, 100)
+	}
+	if !quiesceAll(w, "C17", 30000) {
+		return
+	}
+	tx := w.AnnounceLoose(t)
+	if tx == nil {
+		w.Stat("probe.no_loose_tx")
+		return
+	}
+	var err error
+	g := inst.Call(RoleClient, "NewAddress", func() { _, err = inst.WM.NewAddress(0) })
+	for i := 0; i < 200 && !g.done && g.parked != "db.commit"; i++ {
+		w.S.Do(Action{g, "run"})
+	}
+	w.Logf("client parked at %q", g.parked)
+	w.Stats["probe.client_at_commit"] += b2i(g.parked == "db.commit")
+	if param(p, "second", 0) == 1 {
+		sh := make([]byte, 32)
+		g2 := inst.Call(RoleClient, "lookup", func() { inst.WM.SimKeystoreManager().GetManagedAddressByScriptHash(sh) })
+		w.S.RunSolo(g2, 100)
+		w.Stat("probe.second_client_lookup")
+	}
+	// the handler takes the unconfirmed transaction now
+	for i := 0; i < 50; i++ {
+		var hs []Action
+		for _, a := range w.S.Enabled() {
+			if a.G != g {
+				hs = append(hs, a)
+			}
+		}
+		if len(hs) == 0 {
+			break
+		}
+		w.S.Do(hs[0])
+		w.Stat("probe.handler_steps")
+	}
+	w.S.RunSolo(g, 1000)
+	w.Stats["probe.newaddress_failed"] += b2i(err != nil)
+	w.Logf("NewAddress err=%v recent=%q", err, w.RecentErrors(3))
+	quiesceAll(w, "C17", 30000)
+}
+
+func b2i(b bool) int {
+	if b {
+		return 1
+	}
+	return 0
 }
